@@ -90,6 +90,13 @@ pub fn alphabet() -> Vec<P> {
         p.spelling = Some(sp2);
         v.push(p);
     }
+    // a cost or lot annotation AND a (true) balance assertion on the same posting: the posting is still valued at its lot
+    // price, else its cost - an assertion changes nothing about how a transaction balances
+    for val in ["1", "-1", "2"] {
+        for ann in [Ann::Rate("2", "Y"), Ann::Total("2", "Y"), Ann::LotRate("2", "Y"), Ann::LotRateAndCost("2", "Y", "3")] {
+            v.push(P::amt("?", val, "X").with_ann(ann).with_bal(crate::refledger::Bal::Val("0", "W")));
+        }
+    }
     v
 }
 
